@@ -87,3 +87,16 @@ Theorem C20_debug_single_line : forall (A : Type) (c : cfg) (es : Z) (render : A
          [ch_rb]).
 Proof. intros A c es render m. exact (debug_single_line c es render m). Qed.
 Print Assumptions C20_debug_single_line.
+
+(* ... and all of those row lines are equally wide: the row number is padded to the label width iw, every cell is
+   iw + 1 + ew characters (label, one space, rendering padded to the common width), cells are separated by two spaces *)
+Theorem C20_debug_single_line_widths : forall (A : Type) (c : cfg) (es : Z) (render : A -> text) (m : matrix A),
+  Coh c es m -> is_empty m = false ->
+  (forall r cl, 0 <= r < nrows m -> 0 <= cl < ncols m -> exists x, lines_at render m r cl = [x]) ->
+  let ew := max_width (build_cache render m) in
+  let iw := zlen (dec (size m)) in
+  forall row, 0 <= row < nrows m ->
+    zlen (pad_left_dec row iw) = iw /\
+    zlen (debug_cells_text render m row ew iw) = ncols m * (iw + Z.max INNER_GAP 1 + ew) + INTER_GAP * (ncols m - 1).
+Proof. intros A c es render m. exact (debug_single_line_widths c es render m). Qed.
+Print Assumptions C20_debug_single_line_widths.
